@@ -55,6 +55,7 @@ def build(rng, i, transport="u", framing=None, size=None, style=None):
     body = body_bytes(tag, size)
     r = AReq(method=rng.choice(["POST", "PUT", "PATCH"]), target="/" + tag, version="1.1", headers=[("Host", "h")], framing=fr,
              body=body, chunks=random_chunks(rng, size) if fr != "cl" else None, chunk_style=style if style is not None else rng.below(4))
+    r.te_first = rng.chance(1, 2)
     reads, ckind = consumption(rng, size)
     fin, st, rb = finisher(rng, tag)
     stream = r.render()
